@@ -17,6 +17,8 @@ class Angle(Quantity):
             self.si = angle.si
             self.unit = unit
             return
+        if unit is not None and u._as_unit(unit) is u.hour:
+            unit = u.hourangle          # Angle reads the time unit `hour` as the angular unit `hourangle` (documented astropy behaviour)
         if vprim.is_text(angle):
             value, unit = _parse_angle_text(angle, unit)
             Quantity.__init__(self, value, unit)
@@ -46,6 +48,9 @@ def _parse_angle_text(text, unit):
             if unit is None:
                 raise u.UnitsError('No unit was specified')
             return float(s), u._as_unit(unit)
+        for name in ('deg', 'rad', 'arcmin', 'arcsec'):
+            if s.endswith(name) and s[:-len(name)].replace('.', '', 1).lstrip('+-').isdigit():
+                return float(s[:-len(name)]), u._as_unit(name)          # '<number><unit name>'
         vprim.unsupported('sexagesimal Angle from concrete text (use the native check)')
     sign = 1
     if isinstance(pieces[0], str):
@@ -63,15 +68,41 @@ def _parse_angle_text(text, unit):
         if unit is None:
             raise u.UnitsError('No unit was specified')
         return sign * vals[0], u._as_unit(unit)
+    if len(nums) == 1 and len(seps) == 1 and len(pieces) == 2 and isinstance(pieces[1], str) and pieces[1] in ('deg', 'rad', 'arcmin', 'arcsec', 'd'):
+        # '<number><unit name>': the unit is read from the text
+        return sign * vals[0], u._as_unit('deg' if pieces[1] == 'd' else pieces[1])
     if len(nums) == 3 and seps == [':', ':']:
         if unit is None:
             raise u.UnitsError('No unit was specified')
+        _check_sexagesimal(nums, vals, u._as_unit(unit) == u.hourangle)
         return sign * (vals[0] + vals[1] / 60 + vals[2] / 3600), u._as_unit(unit)
     if len(nums) == 3 and seps == ['h', 'm', 's']:
+        _check_sexagesimal(nums, vals, True)
         return sign * (vals[0] + vals[1] / 60 + vals[2] / 3600), u.hourangle
     if len(nums) == 3 and seps == ['d', 'm', 's']:
+        _check_sexagesimal(nums, vals, False)
         return sign * (vals[0] + vals[1] / 60 + vals[2] / 3600), u.deg
     raise ValueError('Cannot parse angle')
+
+
+def _check_sexagesimal(nums, vals, hours):
+    """astropy's field rules (found by running this model next to astropy, bounded/models.py): the first two fields are integer
+    numerals; minutes and seconds above 60 and hours above 24 are refused with a ValueError (IllegalMinuteError,
+    IllegalSecondError, IllegalHourError); exactly 60 / 24 is accepted (with a warning)"""
+    for p in nums[:2]:
+        dots = p[4] if len(p) > 4 else None
+        if dots is None and p[3] == 'f':
+            dots = 1 if p[2] else 0
+        if dots is None:
+            vprim.unsupported('sexagesimal field numeral of unknown form (integer or with a decimal point)')
+        if dots:
+            raise ValueError('Cannot parse angle: fractional hours/degrees or minutes field')
+    if vals[1] > 60:
+        raise ValueError('IllegalMinuteError')
+    if vals[2] > 60:
+        raise ValueError('IllegalSecondError')
+    if hours and vals[0] > 24:
+        raise ValueError('IllegalHourError')
 
 
 class Longitude(Angle):
